@@ -203,6 +203,15 @@ pub const UNOPS: [O; 2] = [O::Minus, O::Not];
 pub const BINOPS: [O; 15] = [O::Plus, O::Minus, O::Multiply, O::Divide, O::Greater, O::GreaterEqual, O::Less, O::LessEqual,
     O::Equal, O::NotEqual, O::And, O::Or, O::Xor, O::Div, O::Mod];
 
+/// a name of 30 … 260 bytes in which a 2-, 3- or 4-byte character straddles a round byte offset (32, 64, 128, 256): anything that cuts, pads or indexes a
+/// name by BYTES (a length guard for error texts, a fixed buffer) meets a character boundary problem exactly there
+pub fn long_name(r: &mut Rng) -> String {
+    let edge = *r.pick(&[32usize, 64, 128, 256]); let wide = *r.pick(&['é', '€', '𝄞', 'ж', 'ü']);
+    let before = edge - 1 - r.usize(wide.len_utf8().min(3));            // the wide character starts 1 … 3 bytes before the edge (or ends exactly on it)
+    let mut n: String = (0..before).map(|i| char::from(b'a' + (i % 26) as u8)).collect();
+    n.push(wide); for _ in 0..r.usize(6) { n.push(*r.pick(&['x', 'é', '€', '_', '9'])); }
+    n
+}
 /// tree generator. `ill`: operators in any position, odd names, wrong argument counts.
 pub fn gen_tree(r: &mut Rng, depth: u32, ill: bool) -> E {
     let leaf = depth == 0 || r.chance(1, 4);
@@ -211,7 +220,8 @@ pub fn gen_tree(r: &mut Rng, depth: u32, ill: bool) -> E {
             0..=4 => lit(gen_small_val(r)),
             5..=7 => E::Variable { name: { let n = *r.pick(VAR_NAMES); respell(r, n) } },
             8 => E::Call { name: (*r.pick(&["k", "zero", "bad", "nofn", "cnt"])).to_string(), params: vec![] },
-            _ => if ill { E::Variable { name: (*r.pick(&["", " ", "1", "a b", "'"])).to_string() } } else { lit(gen_small_val(r)) },
+            _ => if ill { if r.chance(1, 3) { let n = long_name(r); if r.chance(1, 2) { E::Variable { name: n } } else { E::Call { name: n, params: vec![] } } }
+                          else { E::Variable { name: (*r.pick(&["", " ", "1", "a b", "'"])).to_string() } } } else { lit(gen_small_val(r)) },
         };
     }
     let d = depth - 1;
